@@ -405,6 +405,9 @@ func (c *Case) Run(ctx context.Context, e *Env) (ocispec.Descriptor, error) {
 	e.Mon.Hooks(&gopts)
 	if g.HasTrees() {
 		gopts.FindSuccessors = gen.TreeSuccessors
+		if c.Seed%2 == 1 {
+			gopts.FindSuccessors = gen.StreamTreeSuccessors // reads through the caching fetcher without ever reaching EOF
+		}
 	}
 	if c.Mount != "" {
 		gopts.MountFrom = func(ctx context.Context, desc ocispec.Descriptor) ([]string, error) {
